@@ -392,12 +392,17 @@ def d_len1(F, s):
     if not (n.get("k") == "Call" and s.kind in ("unwrap", "expect")):
         return None
     a = peel(n["args"][0])
-    if not call_is(a, "Iterator::next"):
+    if call_is(a, "Iterator::next"):
+        b = peel(a["args"][0])
+        if not call_is(b, "IntoIterator::into_iter"):
+            return None
+        v = peel(b["args"][0])
+    elif a.get("k") == "Call" and (a.get("fn") or "").endswith(("Vec::<T, A>::pop", "<impl [T]>::first", "<impl [T]>::last")) and len(a["args"]) == 1:
+        v = peel(a["args"][0])  # the last / first element of a vector known to be non-empty
+        while call_is(v, "Deref::deref") or call_is(v, "DerefMut::deref_mut"):
+            v = peel(v["args"][0])
+    else:
         return None
-    b = peel(a["args"][0])
-    if not call_is(b, "IntoIterator::into_iter"):
-        return None
-    v = peel(b["args"][0])
     if v.get("k") != "Var":
         return None
     vid, vname = v["id"], v["name"]
